@@ -30,6 +30,9 @@
 
 #include "argon2-core.h"
 #include "blake2b-long.h"
+#ifdef SODIUM_VERIF
+# include "private/verif.h"
+#endif
 
 #if !defined(MAP_ANON) && defined(MAP_ANONYMOUS)
 # define MAP_ANON MAP_ANONYMOUS
@@ -500,6 +503,9 @@ argon2_pick_best_implementation(void)
     defined(HAVE_TMMINTRIN_H) && defined(HAVE_SMMINTRIN_H)
     if (sodium_runtime_has_avx512f()) {
         fill_segment = argon2_fill_segment_avx512f;
+#ifdef SODIUM_VERIF
+        SODIUM_VERIF_EVENT("pick", "argon2", "avx512f");
+#endif
         return 0;
     }
 #endif
@@ -507,16 +513,25 @@ argon2_pick_best_implementation(void)
     defined(HAVE_SMMINTRIN_H)
     if (sodium_runtime_has_avx2()) {
         fill_segment = argon2_fill_segment_avx2;
+#ifdef SODIUM_VERIF
+        SODIUM_VERIF_EVENT("pick", "argon2", "avx2");
+#endif
         return 0;
     }
 #endif
 #if defined(HAVE_EMMINTRIN_H) && defined(HAVE_TMMINTRIN_H)
     if (sodium_runtime_has_ssse3()) {
         fill_segment = argon2_fill_segment_ssse3;
+#ifdef SODIUM_VERIF
+        SODIUM_VERIF_EVENT("pick", "argon2", "ssse3");
+#endif
         return 0;
     }
 #endif
     fill_segment = argon2_fill_segment_ref;
+#ifdef SODIUM_VERIF
+    SODIUM_VERIF_EVENT("pick", "argon2", "ref");
+#endif
 
     return 0;
     /* LCOV_EXCL_STOP */
